@@ -204,6 +204,10 @@ pub fn run(cfg: &Cfg) {
         r.expect("second generator run");
     }
     let addr_r = rt.block_on(async { start_server(&rr).expect("server R") });
+    // a server certified by CA B that appends CA A's certificate (public, anybody has it) to the chain it presents
+    let chain_pem = scratch_dir("tlsP").join("server-chain.pem");
+    std::fs::write(&chain_pem, format!("{}{}", pem_of(&std::fs::read(b.server("localhost.der")).expect("B leaf")), pem_of(&std::fs::read(a.client("ca.der")).expect("CA A")))).expect("chain file");
+    let addr_chain = rt.block_on(async { start_server_with(&a.server("ca.der"), &chain_pem, &b.server("localhost.key.der")).expect("server with a padded chain") });
     // CA rotation: the same server certificate and key, restarted with `--ca` naming CA B
     let addr_rot = rt.block_on(async { start_server_with(&b.server("ca.der"), &a.server("localhost.der"), &a.server("localhost.key.der")).expect("server rotated") });
     let mut cases: Vec<String> = vec![];
@@ -221,10 +225,12 @@ pub fn run(cfg: &Cfg) {
         cases.push("tls trusted trusted".into());
         cases.push("tls wrongca trusted".into());
         cases.push("tls rotate 3".into());
+        // whoever presents a certificate of CA A somewhere in its chain is not thereby certified by CA A
+        cases.push("tls trusted otherca+chain".into());
     }
     for (i, c) in cases.iter().enumerate() {
         let t: Vec<&str> = c.split(' ').collect();
-        let addr = if t[2] == "trusted" { addr_t } else if t[2] == "noexp" { addr_n } else { addr_o };
+        let addr = if t[2] == "trusted" { addr_t } else if t[2] == "noexp" { addr_n } else if t[2] == "otherca+chain" { addr_chain } else { addr_o };
         let topic = format!("/verif/tls{i}");
         let res = if t[1] == "rotate" { rt.block_on(rotate(addr_t, addr_rot, &a, t[2].parse().unwrap_or(1), &topic)) }
             else if t[1] == "noexp" { rt.block_on(attempt(addr, &ne, &b, &ss, &bun, "trusted", &topic)) }
